@@ -1351,7 +1351,7 @@ void base_str<CharT>::EnsureAlloced(size_t amount, bool keepold)
 {
     if (!m_data)
     {
-        if (amount > 1)
+        if (amount > 0)
         {
             unsigned char* buf = (unsigned char*)allocateMemory(sizeof(strdata<CharT>) + sizeof(CharT) * amount);
             m_data = new (buf) strdata<CharT>;
